@@ -32,7 +32,7 @@ ASSUMPTIONS = [
 SHARDS = {"quick": 16, "thorough": 16}
 MINIMUMS = {
     "quick": {"identity_graphs": 600, "identity_with_deprecated": 400, "workspaces": 40, "jobs_repaired": 150, "state:untouched": 5, "state:cleanup": 5, "state:dangling-link": 5, "state:partially-repaired": 5, "state:already-linked": 5, "state:cleanup-after-link": 5},
-    "thorough": {"identity_graphs": 20000, "identity_with_deprecated": 14000, "workspaces": 1500, "jobs_repaired": 6000},
+    "thorough": {"identity_graphs": 20000, "identity_with_deprecated": 14000, "workspaces": 1500, "jobs_repaired": 4500},
 }
 N = {"quick": (800, 48), "thorough": (24000, 1600)}
 TIMEOUT = {"quick": 900, "thorough": 10800}
